@@ -24,6 +24,10 @@ extern int verif_thrown_other;  /* 1 after a throw of any other type (C13)      
 #define VERIF_NAN (__builtin_nan(""))
 #define VERIF_INF (__builtin_inf())
 
+/* bitwise-style equality of doubles for "output unchanged" clauses: equal incl. sign of zero, or both NaN */
+#define VERIF_SAME_D(a, b) (((a) == (b) && __builtin_signbit(a) == __builtin_signbit(b)) || (__builtin_isnan(a) && __builtin_isnan(b)))
+#define VERIF_UP(c) ((char)verif_toupper(c))
+
 /* ------------------------------------------------------------------ nondet */
 double nondet_double(void);
 float nondet_float(void);
@@ -39,7 +43,7 @@ size_t nondet_size_t(void);
 /* A std::string is modelled as a buffer of capacity VERIF_STRCAP with an explicit length.
  * Embedded NULs are allowed (as in std::string).  p[len] == 0 is maintained, as std::string does. */
 typedef struct vstr { char *p; int len; } vstr;
-#define VSTR_NPOS ((size_t)-1)
+#define VSTR_NPOS (~(size_t)0)
 
 static inline size_t vstr_length(const vstr *s) { return (size_t)s->len; }
 static inline size_t vstr_size(const vstr *s) { return (size_t)s->len; }
@@ -74,17 +78,11 @@ static inline _Bool vstr_in_set_(const char *set, char c) {
 /* Ghost index: an arbitrary position fixed by the harness.  A stub that cannot state
  * "for all i" states its guarantee at this one arbitrary index instead. */
 extern size_t verif_ghost_idx, verif_ghost_idx2, verif_ghost_idx3, verif_ghost_idx4;
-/* std::string::find_first_not_of(const char* set, size_t pos).
- * TRUSTED MODEL of libstdc++: the result r is npos or pos <= r < size with s[r] not in set; and
- * (stated at the ghost index g) every g in [pos, min(r,size)) has s[g] in set. */
+/* std::string::find_first_not_of(const char* set, size_t pos): exact (loop bounded by the capacity) */
 static inline size_t vstr_find_first_not_of(const vstr *s, const char *set, size_t pos) {
-  size_t r = nondet_size_t();
-  if (r != VSTR_NPOS)
-    __CPROVER_assume(pos <= r && r < (size_t)s->len && !vstr_in_set_(set, s->p[r]));
-  size_t g = verif_ghost_idx;
-  if (pos <= g && g < (size_t)s->len && (r == VSTR_NPOS || g < r))
-    __CPROVER_assume(vstr_in_set_(set, s->p[g]));
-  return r;
+  for (size_t i_ = pos; i_ < (size_t)s->len; ++i_)
+    if (!vstr_in_set_(set, s->p[i_])) return i_;
+  return VSTR_NPOS;
 }
 
 /* ------------------------------------------------------------------ <cctype> in the C locale */
@@ -107,6 +105,11 @@ static inline const char *verif_strchr(const char *s, int c) {
     if (s[i_] == (char)c) return s + i_;
     if (s[i_] == 0) return (const char *)0;
   }
+}
+/* spec function: first index of c in the NUL-terminated s, -1 if absent (the terminator is not a member) */
+static inline int verif_index_of(const char *s, char c) {
+  for (int i_ = 0; s[i_] != 0; ++i_) if (s[i_] == c) return i_;
+  return -1;
 }
 #define strchr verif_strchr
 #define strlen verif_strlen
